@@ -534,7 +534,12 @@ func (j *jsonReader) DateTime(tag int) (time.Time, error) {
 		if err != nil {
 			return t, err
 		}
-		return t.Local(), j.Next()
+		t = t.Local()
+		if y := t.Year(); y < 0 || y > 9999 {
+			// Outside of what the writers can express in RFC 3339 (a zone offset moved it across the boundary)
+			return time.Time{}, Errorf("date-time is out of bound")
+		}
+		return t, j.Next()
 	default:
 		return time.Time{}, Errorf("invalid date-time value: %q", val)
 	}
